@@ -20,7 +20,7 @@ REQUIRE_CONFIGURED = S
 TECHNIQUE = "BOUNDED stand-in (small bounds -- the weakest check in this set): CBMC on the real pinifile.c/pstring.c with models of fgets and of sscanf's scanset semantics; unwinding assertions on"
 LEVEL_TEXT = ("p_strchomp against its specification for every string up to the bound; p_ini_file_parse on every file of at most 2 lines of at most 8 (quick) / 12 (thorough) arbitrary bytes: no "
               "memory error, file closed, every listed section has a key, every key a value, everything released; the documented value forms (comment removal, quotes, comment marker inside quotes, "
-              "first '=', empty quoted value with a trailing comment) on six templates; getters: exact key match, last assignment wins, defaults, boolean words, brace lists. The parser's strings "
+              "first '=', empty quoted value with a trailing comment, the three byte-order marks, a line before any section, a repeated key, a comment line) on ten concrete templates; getters: exact key match, last assignment wins, defaults, a brace list with shrinking items and repeated blanks (quick), boolean words and a second list (thorough). The parser's strings "
               "make unbounded contracts impractical with the installed back ends (string loops over symbolic bytes), hence small bounds; counted as bounded model checking only.")
 LEVEL_NOTE = ("Bounds: lines <= 12 bytes, <= 2 lines, object strings <= 3 characters; the 1024-byte line limit paths are NOT reached. Trusted: fgets/sscanf/isspace models (env/stdio_ini.c), allocator. "
               "Not decided: numeric accuracy of p_strtod / atoi conversions, the grammar beyond the templates, behaviour where the real sscanf differs from the model.")
